@@ -33,11 +33,12 @@ _atom_index = {("one",): 0}  # payload -> id
 
 def reset():
     """Forget all atoms (start of an independent analysis)."""
-    global _atoms, _atom_index, _sum_nodes, _sum_index
+    global _atoms, _atom_index, _sum_nodes, _sum_index, _lin_view
     _atoms = [("one",)]
     _atom_index = {("one",): 0}
     _sum_nodes = []
     _sum_index = {}
+    _lin_view = {}
 
 
 def atom(payload):
@@ -177,6 +178,9 @@ def bite(c, a, b):
         return b
     if a == b:
         return a
+    if ONE_ATOM in c:
+        # canonical polarity of the condition: ite(!c, a, b) = ite(c, b, a)
+        return bite(c ^ ONE, b, a)
     if a == ONE and not b:
         return c
     if not a and b == ONE:
@@ -279,36 +283,67 @@ def bswap(a):
 
 _sum_nodes = []   # id -> (w, frozenset((operand, coeff)), const)
 _sum_index = {}
+_lin_view = {}    # bits of a lin() result -> (width, frozenset((operand, coeff)), const)
 
 
 def _as_sum(bv):
-    """If bv is exactly the bits of a sum node (all bits, in order), return its id."""
-    if not bv:
+    """Linear view (terms, const) of a vector previously produced by lin(), else None."""
+    v = _lin_view.get(bv)
+    if v is None:
         return None
-    b0 = bv[0]
-    if len(b0) != 1:
-        return None
-    (a0,) = b0
-    p = _atoms[a0]
-    if p[0] != "sum" or p[2] != 0:
-        return None
-    sid = p[1]
-    w = _sum_nodes[sid][0]
-    if w != len(bv):
-        return None
-    for i in range(1, w):
-        bi = bv[i]
-        if len(bi) != 1:
-            return None
-        (ai,) = bi
-        q = _atoms[ai]
-        if q[0] != "sum" or q[1] != sid or q[2] != i:
-            return None
-    return sid
+    return v[1], v[2]
+
+
+def _low_const_bits(t):
+    n = 0
+    for b in t:
+        if b and b != ONE:
+            break
+        n += 1
+    return n
+
+
+def _realise(width, acc, c):
+    """Deterministic bit representation of the canonical linear form (acc: operand->coeff, c)."""
+    mask = (1 << width) - 1
+    c &= mask
+    acc = {t: k & mask for t, k in acc.items() if k & mask}
+    if not acc:
+        return const(c, width)
+    if len(acc) == 1 and c == 0:
+        (t, k), = acc.items()
+        if k == 1:
+            return t
+    key = (width, frozenset(acc.items()), c)
+    hit = _sum_index.get(key)
+    if hit is not None:
+        return hit
+    # low bits that are constant in every operand (all coefficients odd): computed exactly, the
+    # remaining bits are the canonical form of a narrower sum (an identity of modular arithmetic)
+    bits = None
+    if all(k & 1 for k in acc.values()):
+        kmin = min(_low_const_bits(t) for t in acc)
+        if 0 < kmin < width:
+            low = c
+            upper = {}
+            for t, k in acc.items():
+                low += k * (const_value(t[:kmin]) or 0)
+                u = t[kmin:]
+                upper[u] = upper.get(u, 0) + k
+            bits = const(low & ((1 << kmin) - 1), kmin) + _realise(width - kmin, upper, low >> kmin)
+    if bits is None:
+        sid = len(_sum_nodes)
+        _sum_nodes.append(key)
+        bits = tuple(abit(("sum", sid, i)) for i in range(width))
+    _sum_index[key] = bits
+    _lin_view[bits] = key
+    return bits
 
 
 def lin(width, terms, c=0):
-    """sum(coeff*operand) + c (mod 2^width); terms: iterable of (bv, coeff)."""
+    """sum(coeff*operand) + c (mod 2^width); terms: iterable of (bv, coeff).  Operands that are
+    themselves results of lin() are flattened, so + is associative and commutative and equal
+    linear forms have identical bits."""
     mask = (1 << width) - 1
     acc = {}
     c &= mask
@@ -322,51 +357,14 @@ def lin(width, terms, c=0):
         if cv is not None:
             c = (c + k * cv) & mask
             continue
-        sid = _as_sum(t)
-        if sid is not None:
-            _, sterms, sc = _sum_nodes[sid]
-            c = (c + k * sc) & mask
-            for (t2, k2) in sterms:
+        view = _lin_view.get(t)
+        if view is not None and view[0] == width:
+            c = (c + k * view[2]) & mask
+            for (t2, k2) in view[1]:
                 work.append((t2, (k * k2) & mask))
             continue
-        # power-of-two coefficients become shifts of the operand (canonical choice)
-        if k != 1 and k & (k - 1) == 0 and k < (1 << (width - 1)):
-            sh = k.bit_length() - 1
-            work.append((shl(t, sh), 1))
-            continue
         acc[t] = (acc.get(t, 0) + k) & mask
-    acc = {t: k for t, k in acc.items() if k}
-    if not acc:
-        return const(c, width)
-    # low bits that are constant in every operand are computed exactly; the rest is a narrower sum
-    kmin = width
-    for t in acc:
-        n = 0
-        for b in t:
-            if b and b != ONE:
-                break
-            n += 1
-        kmin = min(kmin, n)
-        if kmin == 0:
-            break
-    if 0 < kmin < width:
-        low = c
-        lowmask = (1 << kmin) - 1
-        for t, k in acc.items():
-            low += k * (const_value(t[:kmin]) or 0)
-        upper = lin(width - kmin, [(t[kmin:], k) for t, k in acc.items()], low >> kmin)
-        return const(low & lowmask, kmin) + upper
-    if len(acc) == 1 and c == 0:
-        (t, k), = acc.items()
-        if k == 1:
-            return t
-    key = (width, frozenset(acc.items()), c)
-    sid = _sum_index.get(key)
-    if sid is None:
-        sid = len(_sum_nodes)
-        _sum_nodes.append(key)
-        _sum_index[key] = sid
-    return tuple(abit(("sum", sid, i)) for i in range(width))
+    return _realise(width, acc, c)
 
 
 def add(a, b):
@@ -572,18 +570,25 @@ class Evaluator:
 
 # ---------------------------------------------------------------- printing / diffing
 
-def support(bv, limit=100000):
+def support(bv, limit=2000000):
     """Set of input (name, idx) the vector depends on."""
     seen = set()
+    seen_sums = set()
     out = set()
     stack = []
-    for b in bv:
-        stack.extend(b)
+
+    def push_bit(b):
+        for a in b:
+            if a and a not in seen:
+                seen.add(a)
+                stack.append(a)
+
+    def push_bv(t):
+        for b in t:
+            push_bit(b)
+    push_bv(bv)
     while stack:
         a = stack.pop()
-        if a in seen or a == 0:
-            continue
-        seen.add(a)
         if len(seen) > limit:
             break
         p = _atoms[a]
@@ -592,26 +597,21 @@ def support(bv, limit=100000):
             out.add((p[1], p[2]))
         elif k == "and":
             for x in p[1]:
-                stack.extend(x)
+                push_bit(x)
         elif k == "sum":
-            for t, _ in _sum_nodes[p[1]][1]:
-                for b in t:
-                    stack.extend(b)
-        elif k in ("carry",):
-            for b in p[1]: stack.extend(b)
-            for b in p[2]: stack.extend(b)
-        elif k == "mul":
-            for b in p[1]: stack.extend(b)
-            for b in p[2]: stack.extend(b)
+            if p[1] not in seen_sums:
+                seen_sums.add(p[1])
+                for t, _ in _sum_nodes[p[1]][1]:
+                    push_bv(t)
+        elif k in ("carry", "mul"):
+            push_bv(p[1]); push_bv(p[2])
         elif k == "ite":
-            stack.extend(p[1]); stack.extend(p[2]); stack.extend(p[3])
+            push_bit(p[1]); push_bit(p[2]); push_bit(p[3])
         elif k == "cmp":
-            for b in p[2]: stack.extend(b)
-            for b in p[3]: stack.extend(b)
+            push_bv(p[2]); push_bv(p[3])
         elif k == "fn":
             for t in p[2]:
-                for b in t:
-                    stack.extend(b)
+                push_bv(t)
     return out
 
 
@@ -652,7 +652,11 @@ def show_atom(a, depth=2):
 
 
 def show_sum(sid, depth=1):
-    w, terms, c = _sum_nodes[sid]
+    return show_view(_sum_nodes[sid], depth)
+
+
+def show_view(view, depth=1):
+    w, terms, c = view
     parts = []
     for t, k in sorted(terms, key=lambda tk: _bvkey(tk[0])):
         s = show_bv(t, depth)
@@ -668,9 +672,9 @@ def show_bv(bv, depth=1):
     if cv is not None:
         return hex(cv)
     w = len(bv)
-    sid = _as_sum(bv)
-    if sid is not None:
-        return show_sum(sid, depth)
+    view = _lin_view.get(tuple(bv))
+    if view is not None:
+        return show_view(view, depth)
     # contiguous run of one input?
     names = []
     for b in bv:
